@@ -202,7 +202,7 @@ pub fn generate(args: &Args) -> Vec<String> {
             vds.insert(at, VD::SetNow(g, v));
         }
         let nw = 1 + rng.below(8);
-        let ws: Vec<String> = (0..nw).map(|_| format!("{}={}", rng.below(nsig), rng.below(7))).collect();
+        let ws: Vec<String> = (0..nw).map(|_| format!("{}={}", rng.below(nsig), rng.below(8))).collect();
         l.push(format!("view run (L{}) {} {}", vds.iter().map(|v| format!(" {}", sx(v))).collect::<String>(), store.join(","), ws.join(",")));
     }
     l
